@@ -3,7 +3,8 @@
 //! `str_concat!`, `str_join!`, `slice_concat!` evaluate inside `const` items, so the solver is applied
 //! to the two phases they are made of (ordinary `pub const fn`s of konst_kernel): the length pass
 //! and the `<N>` fill pass, on symbolic pieces/separators. The 5-line const glue of each macro is
-//! only exercised on constants (`const_glue_smoke`, not counted as solver coverage).
+//! only exercised on constants (generated program family gen/c20.py: compiled by rustc, then
+//! compared with an expected string computed by the generator; concrete, not solver coverage).
 use crate::util::*;
 use core::ffi::CStr;
 use konst_kernel::string::{self as kks, StrJoinArgs, __ElemDispatch, __MakeSepArg, __NormalizeConcatArg, __StrConcatArg};
@@ -197,31 +198,6 @@ fn slice_concat<const N: usize>() {
     must_reach!(n == 3 && a.is_empty() || N == 5, "empty first slice (where N allows it)");
 }
 
-/// the const glue of the macros, on constants (concrete smoke test, not solver coverage)
-fn const_glue_smoke() {
-    const A: &str = konst::string::str_concat!(&["foo", "", "bar", "\u{e9}"]);
-    assert!(A.len() == 8 && A.as_bytes()[6] == 0xC3);
-    const E: &str = konst::string::str_concat!(&[]);
-    assert!(E.is_empty());
-    const C: &str = konst::string::str_concat!(&['a', '\u{20AC}', 'b']);
-    assert!(C.len() == 5 && C.as_bytes()[1] == 0xE2);
-    const J: &str = konst::string::str_join!(", ", &["a", "b", "", "c"]);
-    assert!(J.len() == 9 && J.as_bytes()[7] == b' ');
-    const JC: &str = konst::string::str_join!('\u{e9}', &["a", "b"]);
-    assert!(JC.len() == 4 && JC.as_bytes()[1] == 0xC3);
-    const JE: &str = konst::string::str_join!("--", &[]);
-    assert!(JE.is_empty());
-    const S: [u8; 5] = konst::slice::slice_concat!(u8, &[&[1, 2], &[], &[3, 4, 5]]);
-    assert!(S[0] == 1 && S[2] == 3 && S[4] == 5);
-    const SE: [u8; 0] = konst::slice::slice_concat!(u8, &[&[], &[]]);
-    assert!(SE.len() == 0);
-    const F: &str = konst::string::from_iter!(&["ab", "\u{e9}", ""], map(|s| *s));
-    assert!(F.len() == 4 && F.as_bytes()[2] == 0xC3);
-    const FC: &str = konst::string::from_iter!('a'..='d', rev());
-    assert!(FC.len() == 4 && FC.as_bytes()[0] == b'd');
-    must_reach!("smoke test ran");
-}
-
 // ------------------------------------------------------------------ CStr
 
 fn cstr_constructors<const CAP: usize>() {
@@ -329,9 +305,6 @@ tiers! { slice_concat_5: unwind(8, 8), slice_concat::<5>(), slice_concat::<5>(),
     bounds("0..=3 u16 slices of <=2,2,1 elements, total length 5", "same") }
 tiers! { elem_dispatch: unwind(7, 7), elem_dispatch(), elem_dispatch(),
     calls("konst_kernel::string::__ElemDispatch::{len,as_bytesable}"), bounds("every char; every str <=4 bytes", "same") }
-tiers! { const_glue_smoke: unwind(12, 12), const_glue_smoke(), const_glue_smoke(),
-    calls("konst::string::str_concat!", "konst::string::str_join!", "konst::string::from_iter!", "konst::slice::slice_concat!"),
-    bounds("10 constant argument lists (concrete; not counted as solver coverage)", "same") }
 tiers! { cstr_constructors: unwind(8, 11), cstr_constructors::<5>(), cstr_constructors::<8>(),
     calls("konst::ffi::cstr::from_bytes_until_nul", "konst::ffi::cstr::from_bytes_with_nul"),
     bounds("every byte slice <=5 bytes", "<=8 bytes") }
